@@ -70,6 +70,13 @@ def check(ctx) -> Result:
         impure = any(isinstance(c, ast.Call) and src(c.func) in ("id", "random", "time.time", "object.__hash__", "super().__hash__") for c in walk_no_nested(hs.node))
         res.add(bool(rh) and rh <= re_ and not impure, "Q-hash-follows-eq", ci.name, hs.site(), hs.qualname, f"hash reads {sorted(rh)} ⊆ fields compared by __eq__ {sorted(re_)}",
                 f"__hash__ depends on {sorted(rh - re_) or 'identity/other sources'} which __eq__ does not compare: equal states may hash differently", construct=src(hs.node)[:160])
+        # equality compares the whole occupation lists: a pairwise comparison over zip() stops at the shorter list, so the
+        # number of modes must be compared too (zip(..., strict=True) raises instead, which is not an equality test either)
+        zips = [c for c in walk_no_nested(eq.node) if isinstance(c, ast.Call) and src(c.func) == "zip"]
+        if zips:
+            lens = [c for c in walk_no_nested(eq.node) if isinstance(c, ast.Compare) and all(isinstance(x, ast.Call) and src(x.func) == "len" for x in [c.left] + c.comparators)]
+            res.add(bool(lens), "Q-eq-compares-lengths", ci.name + ".__eq__", eq.site(zips[0]), eq.qualname, "lengths are compared besides the pairwise comparison",
+                    f"`{src(zips[0])[:60]}` pairs the occupations up to the shorter state and nothing compares the number of modes: a state equals every state it is a prefix of (State([1,0]) == State([1,0,0,0]), the empty state equals everything) while their hashes differ", construct=src(zips[0])[:100])
         # eq compares the private field with the other's value and type-checks
         txt = src(eq.node)
         res.add(f"isinstance(value, {ci.name})" in txt and "==" in txt, "Q-hash-follows-eq", ci.name + ".__eq__", eq.site(), eq.qualname, "type-checked list equality", "__eq__ no longer a type-checked comparison of the occupation lists", construct=txt[:160])
